@@ -2444,6 +2444,9 @@ impl Database {
             }
         );
 
+        // flush_wal_if_autocommit read-locks this table's storage itself
+        drop(storage);
+
         self.flush_wal_if_autocommit(file_manager, schema_name, table_name, table_id as u32)?;
 
         drop(file_manager_guard);
